@@ -244,6 +244,7 @@ func (e *Engine) Verify(ct *Contract, prop string, findings []Finding) (res *Uni
 
 	fr := u.newFrame(fn, args, 0, st)
 	fr.top, fr.ct, fr.entrySt = true, ct, entry
+	u.topFrame = fr
 	outs := u.enter(st, fr, fn.Blocks[0])
 	if u.aborted != "" {
 		return
